@@ -762,3 +762,163 @@ def c09_corpus(seed, tier):
 
 
 FROMRNG_LEN = {"IsaacRng": 1024, "Isaac64Rng": 2048}
+
+
+# ---------------------------------------------------------------- C10 / C11
+HAS_EQ = set(XO) | {"SplitMix64", "XorShiftRng", "Hc128Rng", "Hc128Core", "IsaacCore", "Isaac64Core"}
+SERDE_KINDS = list(XO) + ["SplitMix64", "XorShiftRng", "IsaacRng", "Isaac64Rng"]
+
+
+def opj(op, g, n=None, mirror=None):
+    o = {"op": op[0] if isinstance(op, tuple) else op, "g": g}
+    if isinstance(op, tuple) and op[0] == "fill_bytes":
+        o["n"] = op[1]
+    if n is not None:
+        o["n"] = n
+    if mirror is not None:
+        o["mirror"] = mirror
+    return o
+
+
+def lockstep(ops_list, gs):
+    """apply each op to gs[0], then mirrored to the others in a chain"""
+    out = []
+    for op in ops_list:
+        out.append(opj(op, gs[0]))
+        for i in range(1, len(gs)):
+            out.append(opj(op, gs[i], mirror=gs[i - 1]))
+    return out
+
+
+def suffix_ops(kind, rng, blockbytes):
+    ops = [("fill_bytes", 5), ("next_u32", 0), ("next_u64", 0), ("next_u32", 0)]
+    if blockbytes:
+        ops += [("fill_bytes", blockbytes + 3), ("next_u32", 0), ("next_u64", 0), ("fill_bytes", 1)]
+    else:
+        ops += [("fill_bytes", rng.choice([13, 16, 23])), ("next_u64", 0)]
+    if kind in XO_JUMP:
+        ops += [("jump", 0), ("next_u64", 0), ("long_jump", 0), ("next_u32", 0), ("fill_bytes", 9)]
+    ops += [("next_u32", 0), ("next_u32", 0), ("next_u64", 0)]
+    return ops
+
+
+def c10_corpus(seed, tier, node_paths_by_kind):
+    rng = random.Random(seed * 1000003 + 10)
+    S = Sched()
+    bb = {"Hc128Rng": 64, "IsaacRng": 1024, "Isaac64Rng": 2048}
+    # A. buffered generators: clone at buffer positions taken from the model's state graph
+    for kind, paths in node_paths_by_kind.items():
+        nodes = sorted(paths, key=lambda x: (str(type(x[0])), x))
+        if tier == "quick" and len(nodes) > 40:
+            nodes = [n for i, n in enumerate(nodes) if i % (len(nodes) // 28) == 0 or (isinstance(n[0], int) and n[0] >= 254)]
+        for node in nodes:
+            sd = [rng.getrandbits(8) for _ in range(32)]
+            ops = [{"op": "from_seed", "g": 1, "kind": kind, "seed": sd}]
+            ops += [opj(e, 1) for e in paths[node]]
+            ops += [{"op": "clone", "g": 1, "to": 2}, {"op": "eq", "a": 1, "b": 2}]
+            ops += lockstep(suffix_ops(kind, rng, bb[kind]), [1, 2])
+            ops += [{"op": "eq", "a": 1, "b": 2}]
+            if kind == "Hc128Rng":
+                # same seed, another read position of the same block / same position, another seed
+                ops += [{"op": "from_seed", "g": 3, "kind": kind, "seed": sd}, {"op": "from_seed", "g": 4, "kind": kind, "seed": sd}]
+                ops += [opj(("next_u32", 0), 3, n=3), opj(("next_u32", 0), 4, n=4), {"op": "eq", "a": 3, "b": 4}]
+                ops += lockstep([("next_u32", 0), ("next_u64", 0)], [3, 4])
+                sd2 = list(sd)
+                sd2[31] ^= 0x80
+                ops += [{"op": "from_seed", "g": 5, "kind": kind, "seed": sd}, {"op": "from_seed", "g": 6, "kind": kind, "seed": sd2},
+                        opj(("next_u32", 0), 5, n=3), opj(("next_u32", 0), 6, n=3), {"op": "eq", "a": 5, "b": 6}]
+                ops += lockstep([("next_u32", 0), ("fill_bytes", 9)], [5, 6])
+            S.case("%s clone at %s" % (kind, node), ops, weight=len(ops) * (1 + bb[kind] // 64))
+    # B. plain generators
+    for kind in list(XO) + ["SplitMix64", "XorShiftRng"]:
+        for r in range(3 if tier == "quick" else 25):
+            sd = [rng.getrandbits(8) for _ in range(SEEDLEN[kind])]
+            ops = [{"op": "from_seed", "g": 1, "kind": kind, "seed": sd}]
+            ops += [opj(e, 1) for e in random_walk(rng, rng.randrange(0, 6), WORDBYTES[kind])]
+            ops += [{"op": "clone", "g": 1, "to": 2}, {"op": "eq", "a": 1, "b": 2}]
+            ops += lockstep(suffix_ops(kind, rng, None), [1, 2])
+            ops += [{"op": "eq", "a": 1, "b": 2}]
+            # one step apart; one seed bit apart (highest bit of the last word)
+            sd2 = list(sd)
+            sd2[-1] ^= 0x80
+            ops += [{"op": "from_seed", "g": 3, "kind": kind, "seed": sd}, {"op": "from_seed", "g": 4, "kind": kind, "seed": sd},
+                    opj((native_op(kind), 0), 4), {"op": "eq", "a": 3, "b": 4}]
+            ops += lockstep([("next_u64", 0), ("next_u32", 0)], [3, 4])
+            ops += [{"op": "from_seed", "g": 5, "kind": kind, "seed": sd}, {"op": "from_seed", "g": 6, "kind": kind, "seed": sd2}, {"op": "eq", "a": 5, "b": 6}]
+            ops += lockstep([("next_u64", 0), ("fill_bytes", 11)] + ([("jump", 0), ("next_u64", 0)] if kind in XO_JUMP else []), [5, 6])
+            S.case("%s clone/eq #%d" % (kind, r), ops)
+    # C. bare cores
+    for kind in ("Hc128Core", "IsaacCore", "Isaac64Core"):
+        for r in range(2 if tier == "quick" else 10):
+            sd = [rng.getrandbits(8) for _ in range(32)]
+            ops = [{"op": "from_seed", "g": 1, "kind": kind, "seed": sd}]
+            ops += [{"op": "generate", "g": 1} for _ in range(rng.randrange(0, 3))]
+            ops += [{"op": "clone", "g": 1, "to": 2}, {"op": "eq", "a": 1, "b": 2}]
+            ops += lockstep([("generate", 0), ("generate", 0)], [1, 2])
+            ops += [{"op": "eq", "a": 1, "b": 2}]
+            ops += [{"op": "from_seed", "g": 3, "kind": kind, "seed": sd}, {"op": "from_seed", "g": 4, "kind": kind, "seed": sd},
+                    {"op": "generate", "g": 4}, {"op": "eq", "a": 3, "b": 4}]
+            ops += lockstep([("generate", 0)], [3, 4])
+            S.case("%s clone/eq #%d" % (kind, r), ops, weight=200)
+    return S
+
+
+def c10_perturbed(images, rng):
+    """second phase: snapshots of ISAAC cores with exactly one field perturbed, and IsaacArray pairs"""
+    S = Sched()
+    for kind, img in images.items():
+        wb = 4 if kind == "IsaacCore" else 8
+        fields = {"mem[0]": 0, "mem[255]": 255 * wb, "a": 256 * wb, "b": 257 * wb, "c": 258 * wb, "mem[128] high byte": 128 * wb + wb - 1}
+        for name, off in fields.items():
+            im2 = list(img)
+            im2[off] ^= 0x01 if "high" not in name else 0x80
+            ops = [{"op": "de_image", "kind": kind, "image": img, "to": 1}, {"op": "de_image", "kind": kind, "image": im2, "to": 2},
+                   {"op": "eq", "a": 1, "b": 2}]
+            ops += lockstep([("generate", 0), ("generate", 0)], [1, 2])
+            ops += [{"op": "de_image", "kind": kind, "image": img, "to": 3}, {"op": "de_image", "kind": kind, "image": img, "to": 4}, {"op": "eq", "a": 3, "b": 4}]
+            ops += lockstep([("generate", 0)], [3, 4])
+            S.case("%s perturbed %s" % (kind, name), ops, weight=300)
+    for kind, wb in (("IsaacArrayU32", 4), ("IsaacArrayU64", 8)):
+        base = [rng.getrandbits(8) for _ in range(256 * wb)]
+        for name, off in (("first element", 0), ("last element", 255 * wb), ("last byte", 256 * wb - 1), ("middle", 100 * wb + 1)):
+            b2 = list(base)
+            b2[off] ^= 0x10
+            ops = [{"op": "de_image", "kind": kind, "image": base, "to": 1}, {"op": "de_image", "kind": kind, "image": b2, "to": 2},
+                   {"op": "eq", "a": 1, "b": 2}, {"op": "clone", "g": 1, "to": 3}, {"op": "eq", "a": 1, "b": 3}]
+            S.case("%s pair differing in %s" % (kind, name), ops, weight=50)
+    return S
+
+
+def c11_corpus(seed, tier, node_paths_by_kind):
+    rng = random.Random(seed * 1000003 + 11)
+    S = Sched()
+    bb = {"IsaacRng": 1024, "Isaac64Rng": 2048}
+
+    def snap_ops(kind, pre, blockbytes):
+        ops = pre + [{"op": "clone", "g": 1, "to": 4}, {"op": "ser", "g": 1},
+                     {"op": "de", "g": 1, "to": 2, "fmt": "bincode"}, {"op": "de", "g": 1, "to": 3, "fmt": "json"}]
+        if kind in HAS_EQ:
+            ops += [{"op": "eq", "a": 1, "b": 2}, {"op": "eq", "a": 1, "b": 3}]
+        ops += lockstep(suffix_ops(kind, rng, blockbytes), [1, 4, 2, 3])
+        if kind in HAS_EQ:
+            ops += [{"op": "eq", "a": 1, "b": 2}, {"op": "eq", "a": 2, "b": 3}]
+        # snapshot of the restored generator again (round trip of a round trip)
+        ops += [{"op": "ser", "g": 2}, {"op": "de", "g": 2, "to": 5, "fmt": "bincode"}]
+        ops += lockstep([("next_u32", 0), ("next_u64", 0), ("fill_bytes", 7)], [2, 5])
+        return ops
+    for kind, paths in node_paths_by_kind.items():
+        nodes = sorted(paths, key=lambda x: (str(type(x[0])), x))
+        if tier == "quick" and len(nodes) > 40:
+            nodes = [n for i, n in enumerate(nodes) if i % (len(nodes) // 24) == 0 or (isinstance(n[0], int) and n[0] >= 254)]
+        for node in nodes:
+            sd = [rng.getrandbits(8) for _ in range(32)]
+            pre = [{"op": "from_seed", "g": 1, "kind": kind, "seed": sd}] + [opj(e, 1) for e in paths[node]]
+            S.case("%s snapshot at %s" % (kind, node), snap_ops(kind, pre, bb[kind]), weight=40 * (bb[kind] // 64))
+    for kind in list(XO) + ["SplitMix64", "XorShiftRng"]:
+        for r in range(3 if tier == "quick" else 25):
+            sd = [rng.getrandbits(8) for _ in range(SEEDLEN[kind])]
+            pre = [{"op": "from_seed", "g": 1, "kind": kind, "seed": sd}] + [opj(e, 1) for e in random_walk(rng, rng.randrange(0, 6), WORDBYTES[kind])]
+            if kind in XO_JUMP and r % 2:
+                pre.append({"op": "jump", "g": 1})
+            S.case("%s snapshot #%d" % (kind, r), snap_ops(kind, pre, None))
+    return S
